@@ -7,7 +7,7 @@
    C02 (Model/FIT.v).  F: any field with 1+1 <> 0. *)
 From Coq Require Import ZArith Bool Field.
 From V Require Import Base.Loops Base.Arr Base.FieldSig.
-From V Require Import Gen.CoreBand Gen.CoreGS Model.FIT Proofs.BandSums Proofs.BandLDL Proofs.GSBlock Proofs.GSSweep.
+From V Require Import Gen.CoreBand Gen.CoreGS Model.FIT Proofs.BandSums Proofs.BandLDL Proofs.GSBlock Proofs.GSSweep Proofs.GSLineX.
 Local Open Scope Z_scope.
 
 Section C03.
@@ -139,6 +139,88 @@ Section C03sweep.
   Proof. exact (gauss_seidel_frame ex ey ez sx sy sz eta_x eta_y eta_z zeta hx hy hz nu nx ny nz). Qed.
 End C03sweep.
 
+(* --- the line smoother along x (linerelaxation 4 and part of 5, 6, 7) -------- *)
+(* [gauss_seidel_x] of Gen/CoreGS.v (regenerated from emg3d/core.py).  For the
+   line (iy, iz) the kernel assembles a banded system of 5 nx - 4 unknowns
+   (unknown 5a+r: r=0 ex[a,iy,iz]; r=1,2 ey[a+1,iy-1|iy,iz]; r=3,4
+   ez[a+1,iy,iz-1|iz]), [gsx_sys] = the (amat, bvec) after the generated ixh
+   loop, [gsx_out] = the field after solve + write-back.  [fld_res fx fy fz a r]
+   = (A f - s) on the edge of unknown 5a+r, A the operator of C02.
+   PECx: the eight tangential values at the two x-ends of the line are zero
+   (the kernel drops their couplings; docstring: "assumed to be zero (PEC)"). *)
+Section C03linex.
+  Context {F : Type} {O : FOps F}.
+  Hypothesis Fth : field_theory F0 F1 Fadd Fmul Fsub Fopp Fdiv Finv (@eq F).
+  Hypothesis two_nz : (1 + 1)%F <> 0%F.
+  Variables (ex ey ez sx sy sz eta_x eta_y eta_z zeta : Z -> Z -> Z -> F).
+  Variables (hx hy hz : Z -> F).
+  Hypothesis hx_nz : forall i, hx i <> 0%F.
+  Hypothesis hy_nz : forall i, hy i <> 0%F.
+  Hypothesis hz_nz : forall i, hz i <> 0%F.
+  Variables (nu lhx nx lhy ny lhz nz iy iz : Z).
+  Notation LSYS := (gsx_sys ex ey ez sx sy sz eta_x eta_y eta_z zeta hx hy hz nu lhx nx lhy ny lhz nz iy iz).
+  Notation LOUT := (gsx_out ex ey ez sx sy sz eta_x eta_y eta_z zeta hx hy hz nu lhx nx lhy ny lhz nz iy iz).
+
+  (* consistency: for ANY values x of the line's unknowns, line-matrix * x -
+     line-rhs is (A e[x] - s) on the line's edges (every nx >= 2, both ends,
+     first / middle / next-to-last / last block) *)
+  Theorem line_x_system_is_the_residual_system :
+    2 <= nx -> 1 <= iy -> 1 <= iz -> PECx ey ez nx iy iz ->
+    forall (x : Z -> F) i, 0 <= i < 5*nx-4 ->
+      Fsub (bandmul (5*nx-4) (fst LSYS) x i) (snd LSYS i)
+      = line_res ex ey ez sx sy sz eta_x eta_y eta_z zeta hx hy hz nx iy iz x (i / 5) (i mod 5).
+  Proof. exact (gsx_line_consistent Fth two_nz ex ey ez sx sy sz eta_x eta_y eta_z zeta hx hy hz
+                  hx_nz hy_nz hz_nz nu lhx nx lhy ny lhz nz iy iz). Qed.
+
+  (* after the step (assemble, banded solve, write back) every equation of the
+     line holds exactly on the returned field *)
+  Theorem line_x_equations_hold_afterwards :
+    2 <= nx -> 1 <= iy -> 1 <= iz -> PECx ey ez nx iy iz ->
+    PivX ex ey ez sx sy sz eta_x eta_y eta_z zeta hx hy hz nu lhx nx lhy ny lhz nz iy iz ->
+    forall i, 0 <= i < 5*nx-4 ->
+      fld_res sx sy sz eta_x eta_y eta_z zeta hx hy hz iy iz
+        (fst (fst LOUT)) (snd (fst LOUT)) (snd LOUT) (i / 5) (i mod 5) = 0%F.
+  Proof. exact (gsx_line_exact_out Fth two_nz ex ey ez sx sy sz eta_x eta_y eta_z zeta hx hy hz
+                  hx_nz hy_nz hz_nz nu lhx nx lhy ny lhz nz iy iz). Qed.
+End C03linex.
+
+Section C03linexsweep.
+  Context {F : Type} {O : FOps F}.
+  Hypothesis Fth : field_theory F0 F1 Fadd Fmul Fsub Fopp Fdiv Finv (@eq F).
+  Hypothesis two_nz : (1 + 1)%F <> 0%F.
+  Variables (ex ey ez sx sy sz eta_x eta_y eta_z zeta : Z -> Z -> Z -> F).
+  Variables (hx hy hz : Z -> F).
+  Hypothesis hx_nz : forall i, hx i <> 0%F.
+  Hypothesis hy_nz : forall i, hy i <> 0%F.
+  Hypothesis hz_nz : forall i, hz i <> 0%F.
+  Variables (nu nx ny nz : Z).
+
+  (* the whole kernel, every nu, forward and backward ordering: a field solving
+     every equation of every interior line is returned unchanged ... *)
+  Theorem line_x_smoother_leaves_exact_solution_unchanged :
+    2 <= nx ->
+    (forall iy iz, 1 <= iy < ny -> 1 <= iz < nz -> forall i, 0 <= i < 5*nx-4 ->
+       fld_res sx sy sz eta_x eta_y eta_z zeta hx hy hz iy iz ex ey ez (i / 5) (i mod 5) = 0%F) ->
+    (forall iy iz, 1 <= iy < ny -> 1 <= iz < nz -> PECx ey ez nx iy iz) ->
+    (forall iy iz, 1 <= iy < ny -> 1 <= iz < nz ->
+       PivX ex ey ez sx sy sz eta_x eta_y eta_z zeta hx hy hz nu nx nx ny ny nz nz iy iz) ->
+    let r := gauss_seidel_x nx ny nz ex ey ez sx sy sz eta_x eta_y eta_z zeta hx hy hz nu in
+    forall i j l, fst (fst r) i j l = ex i j l /\ snd (fst r) i j l = ey i j l /\ snd r i j l = ez i j l.
+  Proof. exact (gauss_seidel_x_fixed_point Fth two_nz ex ey ez sx sy sz eta_x eta_y eta_z zeta hx hy hz
+                  hx_nz hy_nz hz_nz nu nx ny nz). Qed.
+
+  (* ... and no tangential boundary edge is ever written (any field, source, nu, shape) *)
+  Theorem line_x_smoother_never_writes_boundary :
+    let r := gauss_seidel_x nx ny nz ex ey ez sx sy sz eta_x eta_y eta_z zeta hx hy hz nu in
+    (forall i j l, (i < 0 \/ nx <= i \/ j <= 0 \/ ny <= j \/ l <= 0 \/ nz <= l) ->
+       fst (fst r) i j l = ex i j l) /\
+    (forall i j l, (i <= 0 \/ nx <= i \/ j < 0 \/ ny <= j \/ l <= 0 \/ nz <= l) ->
+       snd (fst r) i j l = ey i j l) /\
+    (forall i j l, (i <= 0 \/ nx <= i \/ j <= 0 \/ ny <= j \/ l < 0 \/ nz <= l) ->
+       snd r i j l = ez i j l).
+  Proof. exact (gauss_seidel_x_frame ex ey ez sx sy sz eta_x eta_y eta_z zeta hx hy hz nu nx ny nz). Qed.
+End C03linexsweep.
+
 Print Assumptions solve_correct_banded.
 Print Assumptions solve_unique_banded.
 Print Assumptions solve_is_linear_in_rhs.
@@ -149,3 +231,7 @@ Print Assumptions gs_exact_solution_is_fixed_point.
 Print Assumptions gs_block_writes_only_its_six_edges.
 Print Assumptions point_smoother_leaves_exact_solution_unchanged.
 Print Assumptions point_smoother_never_writes_boundary.
+Print Assumptions line_x_system_is_the_residual_system.
+Print Assumptions line_x_equations_hold_afterwards.
+Print Assumptions line_x_smoother_leaves_exact_solution_unchanged.
+Print Assumptions line_x_smoother_never_writes_boundary.
